@@ -93,6 +93,10 @@ fn gen_single_run(check: &str, tag: &str, seed: u64, index: u64, serial_baseline
    let (gname, mut ops) = gen_input_ops(def, &mut rng);
    ops.insert(0, Op::New { pool: PoolRef::Global });
    ops.push(Op::Run { pool: PoolRef::Global });
+   if check == "C05" && rng.chance(150) {
+      // "no matter how many ... iterations": a repeated run must not append a tuple again either
+      ops.push(Op::Run { pool: PoolRef::Global });
+   }
    case.label = format!("{}/{}/{}", def.name, variant.name(), gname);
    case.actors.push(Actor { program: def.name.to_string(), variant: variant.name().to_string(), ops });
    case
@@ -178,7 +182,10 @@ fn gen_history(seed: u64, index: u64, thorough: bool) -> Case {
    let mut case = base_case(check, seed, index, &mut rng);
    let progs = programs_tagged("c13");
    let def = *rng.pick(&progs);
-   let variant = if rng.chance(300) { Variant::Ser } else { pick_par_variant(&mut rng) };
+   let mut variant = if rng.chance(300) { Variant::Ser } else { pick_par_variant(&mut rng) };
+   if !def.variants.contains(&variant) {
+      variant = Variant::Ser;
+   }
    if variant.is_parallel() && rng.chance(350) {
       case.pools = gen_pools(&mut rng);
    }
